@@ -188,11 +188,14 @@ def replay_tcoll(groups):
     """records with the same (dim, x0) and single-op histories: TransformationCollection acting elementwise."""
     g = import_geometer()
     out = []
+    # every group twice: as it is, and repeated cyclically to 70 elements (the kernels behind inverse()/apply switch to
+    # vectorised formulas from 64 matrices on; the pool matrices are integer arrays, several with |det| > 1)
+    groups = [recs for recs in groups] + [[recs[i % len(recs)] for i in range(70)] for recs in groups]
     for recs in groups:
         r0 = recs[0]
         dim = r0["d"]
-        site = f"{r0['x']['k']}/{dim}D/TransformationCollection"
-        case = {"d": dim, "x": r0["x"], "hs": [r["h"] for r in recs]}
+        site = f"{r0['x']['k']}/{dim}D/TransformationCollection" + ("/70" if len(recs) == 70 else "")
+        case = {"d": dim, "x": r0["x"], "hs": [r["h"] for r in recs[:12]], "n": len(recs)}
         try:
             tc = g.TransformationCollection(np.array([r["ms"][0] for r in recs]))
             x = build_coll([r0["x"]] * len(recs), dim)
